@@ -54,6 +54,11 @@ pub fn catalog_of(zones: Vec<Arc<HashMapTreeZone>>) -> Arc<Cat> {
 
 /// The standard small zone used by several checks: `example.` with a few names.
 pub fn example_zone(serial: u32) -> Arc<HashMapTreeZone> {
+    example_zone_with(serial, false)
+}
+/// `apex_big`: the apex additionally holds a large TXT RRset, added last, so that an ANY query for
+/// the apex over UDP overflows *after* RRsets with names in their RDATA (SOA, NS, MX) were written.
+pub fn example_zone_with(serial: u32, apex_big: bool) -> Arc<HashMapTreeZone> {
     let mut z = ZoneBuilder::new("example.", wire::C_IN);
     z.soa_ns("example.", serial);
     z.add("www.example.", wire::T_A, 60, &[10, 0, 0, 1]);
@@ -73,6 +78,13 @@ pub fn example_zone(serial: u32) -> Arc<HashMapTreeZone> {
     }
     z.add("sub.example.", wire::T_NS, 60, &wire::name_wire("ns.sub.example."));
     z.add("ns.sub.example.", wire::T_A, 60, &[10, 0, 0, 53]);
+    if apex_big {
+        for i in 0..12u8 {
+            let mut t = vec![b'A' + (i % 26); 50];
+            t[0] = i;
+            z.add("example.", wire::T_TXT, 60, &wire::txt_rdata(&t));
+        }
+    }
     z.finish()
 }
 
